@@ -861,6 +861,31 @@ pub fn o14(dir: &str, thorough: bool, seed: u64) {
                             &format!("{} k={} {variant} `{f}`: {}", xg.name, xg.k, match &r { Ok(Ok(_)) => "returned a result", Ok(Err(_)) => "error", Err(_) => "PANIC" }));
                     }
                 }
+                // a set of the right graph that depends on a symbolic variable reserved for HCTL variables ("the copy of the first
+                // network variable in the first variable set is true") is no coloured set of states: error value, no panic
+                if xg.k >= 1 {
+                    let c = xg.graph.symbolic_context();
+                    let extra = c.get_extra_state_variable(xg.vars[0], 0);
+                    let dep = GraphColoredVertices::new(c.bdd_variable_set().mk_var(extra), c).intersect(xg.graph.unit_colored_vertices());
+                    let mut bad = Ctx::new();
+                    bad.insert(s("p"), dep);
+                    for f in ["%p%", "EF %p%", "3{x}: (@{x}: %p%)"] {
+                        for san in [false, true] {
+                            let fs = vec![f];
+                            let r = guarded(std::panic::AssertUnwindSafe(|| {
+                                if san {
+                                    model_check_multiple_extended_formulae(fs.clone(), &xg.graph, &bad).map(|_| ())
+                                } else {
+                                    model_check_multiple_extended_formulae_dirty(fs.clone(), &xg.graph, &bad).map(|_| ())
+                                }
+                            }));
+                            out.count("dependent_context");
+                            out.oracle(matches!(r, Ok(Err(_))), "C14",
+                                "a context set that depends on the symbolic variables of HCTL variables is not rejected with an error value",
+                                &format!("{} k={} sanitised={san} `{f}`: {}", xg.name, xg.k, match &r { Ok(Ok(_)) => "returned a result", Ok(Err(_)) => "error", Err(_) => "PANIC" }));
+                        }
+                    }
+                }
                 let plain = format!("EF {a0}");
                 let fs = vec![plain.as_str()];
                 let with = guarded(std::panic::AssertUnwindSafe(|| model_check_multiple_extended_formulae_dirty(fs.clone(), &xg.graph, &foreign)));
